@@ -84,6 +84,12 @@ func (db *Backend) metaBucket(tx *bolt.Tx) (*metaBucket, error) {
 	}, nil
 }
 
+// isMetaBucket reports whether name is the bolt bucket the backend keeps its
+// own bookkeeping in, which must never be usable as an S3 bucket.
+func (db *Backend) isMetaBucket(name string) bool {
+	return name == string(db.metaBucketName)
+}
+
 func (db *Backend) ListBuckets() ([]gofakes3.BucketInfo, error) {
 	var buckets []gofakes3.BucketInfo
 
@@ -137,6 +143,9 @@ func (db *Backend) ListBucket(name string, prefix *gofakes3.Prefix, page gofakes
 	if !page.IsEmpty() {
 		return nil, gofakes3.ErrInternalPageNotImplemented
 	}
+	if db.isMetaBucket(name) {
+		return nil, gofakes3.BucketNotFound(name)
+	}
 
 	objects := gofakes3.NewObjectList()
 
@@ -180,6 +189,10 @@ func (db *Backend) ListBucket(name string, prefix *gofakes3.Prefix, page gofakes
 }
 
 func (db *Backend) CreateBucket(name string) error {
+	if db.isMetaBucket(name) {
+		return gofakes3.ResourceError(gofakes3.ErrInvalidBucketName, name)
+	}
+
 	return db.bolt.Update(func(tx *bolt.Tx) error {
 		{ // create bucket metadata
 			metaBucket, err := db.metaBucket(tx)
@@ -284,6 +297,10 @@ func (db *Backend) ForceDeleteBucket(name string) error {
 }
 
 func (db *Backend) BucketExists(name string) (exists bool, err error) {
+	if db.isMetaBucket(name) {
+		return false, nil
+	}
+
 	err = db.bolt.View(func(tx *bolt.Tx) error {
 		b := tx.Bucket([]byte(name))
 		exists = b != nil
@@ -302,6 +319,10 @@ func (db *Backend) HeadObject(bucketName, objectName string) (*gofakes3.Object, 
 }
 
 func (db *Backend) GetObject(bucketName, objectName string, rangeRequest *gofakes3.ObjectRangeRequest) (*gofakes3.Object, error) {
+	if db.isMetaBucket(bucketName) {
+		return nil, gofakes3.BucketNotFound(bucketName)
+	}
+
 	var t boltObject
 
 	err := db.bolt.View(func(tx *bolt.Tx) error {
@@ -341,6 +362,10 @@ func (db *Backend) PutObject(
 	meta map[string]string,
 	input io.Reader, size int64,
 ) (result gofakes3.PutObjectResult, err error) {
+
+	if db.isMetaBucket(bucketName) {
+		return result, gofakes3.BucketNotFound(bucketName)
+	}
 
 	bts, err := gofakes3.ReadAll(input, size)
 	if err != nil {
@@ -384,6 +409,10 @@ func (db *Backend) CopyObject(srcBucket, srcKey, dstBucket, dstKey string, meta 
 }
 
 func (db *Backend) DeleteObject(bucketName, objectName string) (result gofakes3.ObjectDeleteResult, rerr error) {
+	if db.isMetaBucket(bucketName) {
+		return result, gofakes3.BucketNotFound(bucketName)
+	}
+
 	return result, db.bolt.Update(func(tx *bolt.Tx) error {
 		b := tx.Bucket([]byte(bucketName))
 		if b == nil {
@@ -397,6 +426,10 @@ func (db *Backend) DeleteObject(bucketName, objectName string) (result gofakes3.
 }
 
 func (db *Backend) DeleteMulti(bucketName string, objects ...string) (result gofakes3.MultiDeleteResult, err error) {
+	if db.isMetaBucket(bucketName) {
+		return result, gofakes3.BucketNotFound(bucketName)
+	}
+
 	err = db.bolt.Update(func(tx *bolt.Tx) error {
 		b := tx.Bucket([]byte(bucketName))
 		if b == nil {
